@@ -546,6 +546,48 @@ distinct = distinct elevation strings / azimuth-list pairs; oracle = 10-line ref
         ctx.obs.count("merges_of_tens_of_thousands_of_radials", 1);
     }
 
+    // The same two layouts merged again and again by one thread while every other worker thread
+    // does the same with layouts of its own (all of one combined length): what a library remembers
+    // from the merge before is asked for again at once, and other threads' merges are in between.
+    {
+        let seed = ctx.seed;
+        let hot: u64 = ctx.tier.pick(3_000, 60_000);
+        crate::ev::par_cases(ctx, hot, move |i, obs| {
+            let mut rng = Rng::derive(seed, 99, i);
+            let la = rng.urange(0, 40);
+            let a: Vec<u16> = (0..la).map(|_| rng.below(12) as u16).collect();
+            let b: Vec<u16> = (0..40 - la).map(|_| rng.below(12) as u16).collect();
+            // expected: stable sort by azimuth number of first || second, identified by timestamp
+            let mut want: Vec<(u16, i64)> = a.iter().enumerate().map(|(k, z)| (*z, 1_000 + k as i64)).chain(b.iter().enumerate().map(|(k, z)| (*z, 2_000 + k as i64))).collect();
+            want.sort_by_key(|x| x.0);
+            obs.case(mix(0x909, i));
+            for pass in 0..8 {
+                let s1 = Sweep::new(7, a.iter().enumerate().map(|(k, z)| mk_radial(1_000 + k as i64, *z, 7)).collect());
+                let s2 = Sweep::new(7, b.iter().enumerate().map(|(k, z)| mk_radial(2_000 + k as i64, *z, 7)).collect());
+                let replay = json!({"op": "merge repeated on all worker threads", "index": i, "pass": pass, "first": a, "second": b});
+                match mon::catch(|| s1.merge(s2)) {
+                    Err(p) => {
+                        obs.violation(format!("merge {}", p.signature()), p.message, replay);
+                        return;
+                    }
+                    Ok(Err(e)) => {
+                        obs.violation("merge of equal elevation numbers refused", format!("{e:?}"), replay);
+                        return;
+                    }
+                    Ok(Ok(m)) => {
+                        let got: Vec<(u16, i64)> = m.radials().iter().map(|r| (r.azimuth_number(), r.collection_timestamp())).collect();
+                        if got != want {
+                            let sig = if got.len() != want.len() { "merge loses or duplicates radials" } else if got.windows(2).any(|w| w[0].0 > w[1].0) { "merge result not ordered by azimuth number" } else { "merge orders ties not first-then-second" };
+                            obs.violation(sig, format!("pass {} of the same merge repeated on all worker threads: expected {:?}, observed {:?}", pass, want, got), replay);
+                            return;
+                        }
+                    }
+                }
+            }
+            obs.count("merges_repeated_on_all_worker_threads_exact", 8);
+        });
+    }
+
     // random merge
     let n = ctx.tier.pick(20_000, 400_000);
     for i in 0..n {
